@@ -101,3 +101,9 @@ func Chmod(name string, mode os.FileMode) error {
 	defer after()
 	return os.Chmod(name, mode)
 }
+
+func Link(oldname, newname string) error {
+	before()
+	defer after()
+	return os.Link(oldname, newname)
+}
